@@ -23,10 +23,11 @@ def universal_aeon(n, wild=(), zero=(), regs=None, explicit=None, implicit=()):
             a = regs.get((s, t), '-??')
             if a is not None: lines.append(f'{names[s]} {a} {names[t]}')
     argl = ', '.join(names)
+    first = min(i for i in range(n) if i not in implicit)
     for i, t in enumerate(names):
         if i in implicit: continue
         f = (explicit or {}).get(i, f'f{i}({argl})')
-        if i == 0:
+        if i == first:
             for w in wild: f += f' | ({w}({argl}) & !{w}({argl}))'
             for g in zero: f += f' | ({g} & !{g})'
         lines.append(f'${t}: {f}')
